@@ -29,7 +29,9 @@ Inductive op :=
 | Copy                               (* c.copy(): observed as the copy's items in eviction order *)
 | Len                                (* len(c) *)
 | Contains (k : K)                   (* k in c *)
-| Snapshot (w : snap).               (* c | {} / {} | c / repr(c): all items at one instant, as a set *)
+| Snapshot (w : snap)                (* c | {} / {} | c / repr(c): all items at one instant, as a set *)
+| NeDict (l : list (K * V))          (* c != {plain dict}  (keys of l distinct) *)
+| CopyCopy.                          (* copy.copy(c)  (LRI.__copy__) *)
 
 (* what an operation gives back to its thread *)
 Inductive rv :=
@@ -61,14 +63,14 @@ Definition op_keys (o : op) : list K :=
 (* ---- methods and the lock-coverage table ---------------------------------- *)
 Inductive meth :=
 | MSetItem | MGetItem | MGet | MDelItem | MPop | MPopItem | MClear
-| MSetDefault | MUpdate | MIor | MEq | MCopy | MLen | MContains | MOr | MRor | MRepr.
+| MSetDefault | MUpdate | MIor | MEq | MCopy | MLen | MContains | MOr | MRor | MRepr | MNe | MCopy2.
 
 Definition meth_eqb (a b : meth) : bool :=
   match a, b with
   | MSetItem, MSetItem | MGetItem, MGetItem | MGet, MGet | MDelItem, MDelItem
   | MPop, MPop | MPopItem, MPopItem | MClear, MClear | MSetDefault, MSetDefault
   | MUpdate, MUpdate | MIor, MIor | MEq, MEq | MCopy, MCopy | MLen, MLen
-  | MContains, MContains | MOr, MOr | MRor, MRor | MRepr, MRepr => true
+  | MContains, MContains | MOr, MOr | MRor, MRor | MRepr, MRepr | MNe, MNe | MCopy2, MCopy2 => true
   | _, _ => false
   end.
 
@@ -79,6 +81,7 @@ Definition meth_of (o : op) : meth :=
   | SetDefault _ _ => MSetDefault | Update _ => MUpdate | Ior _ => MIor
   | EqDict _ | EqSelf => MEq | Copy => MCopy | Len => MLen | Contains _ => MContains
   | Snapshot SOr => MOr | Snapshot SRor => MRor | Snapshot SRepr => MRepr
+  | NeDict _ => MNe | CopyCopy => MCopy2
   end.
 
 (* One simple statement (or the test/iterable expression of a compound one) of a
@@ -155,12 +158,13 @@ Definition wraps (tb : lock_table) (c : kind) (m : meth) : bool :=
    known_findings.d/C03.json) *)
 Definition locked_meths : list meth :=
   [MSetItem; MGetItem; MGet; MDelItem; MPop; MPopItem; MClear; MSetDefault; MUpdate; MIor; MEq; MCopy;
-   MLen; MContains; MOr; MRor; MRepr].
+   MLen; MContains; MOr; MRor; MRepr; MNe; MCopy2].
 
 Definition meth_covered (tb : lock_table) (c : kind) (m : meth) : bool :=
   match meth_status tb c m, m with
   | Whole, _ => true
   | Single, MGet => true           (* get = one locked self[key] + a private counter *)
+  | Single, MNe => true            (* != is `not (self == other)`: one locked call *)
   | _, _ => false
   end.
 
